@@ -113,8 +113,9 @@ def explore(I, entry, args=(), max_paths=20000, expect_panic=None, on_path_end=N
                 res.completed -= 1
             continue
         if p.ghost.get('schedule') is not None:
-            sched = ['%s: %s %s' % (a, b, c) for (a, b, c) in p.ghost['schedule']]
-            parked = ['%s stays at %s %s' % (a, b, c) for (a, b, c) in p.ghost.get('parked', [])]
+            from .prog import REPO as _R
+            sched = ['%s: %s %s' % (a, b, c.replace(_R + '/', '')) for (a, b, c) in p.ghost['schedule']]
+            parked = ['%s stays at %s %s' % (a, b, c.replace(_R + '/', '')) for (a, b, c) in p.ghost.get('parked', [])]
             for v in p.violations:
                 if isinstance(v.get('model'), dict):
                     v['model']['schedule'] = sched + parked
